@@ -447,9 +447,9 @@ var allFixes = `{"ptrShape", "condIdxDelete", "hbRefresh"}`
 
 // exhaustive design check: every behaviour first fixes the backend shape (ptr/str/map) and the
 // set of repairs, so one TLC run covers the as-is and the repaired code (thorough: all 8 subsets)
-func mcJob(name, nodes string, nconns int, clients, fixsets string) fw.TLCJob {
+func mcJob(name, nodes string, nconns int, clients, shapes, fixsets string) fw.TLCJob {
 	return fw.TLCJob{Name: name, Module: "ConnState", Cfg: "ConnState_mc.cfg", Workers: 8, Consts: map[string]string{
-		"NODES": nodes, "NCONNS": fmt.Sprint(nconns), "CLIENTS": clients, "FIXSETS": fixsets}}
+		"NODES": nodes, "NCONNS": fmt.Sprint(nconns), "CLIENTS": clients, "SHAPES": shapes, "FIXSETS": fixsets}}
 }
 
 func genJob(name, nodes string, nconns int, clients string, maxClock, maxHist int, shapes, fixes, only string) fw.TLCJob {
@@ -459,8 +459,9 @@ func genJob(name, nodes string, nconns int, clients string, maxClock, maxHist in
 }
 
 const (
-	two   = `{"A", "B"}`
-	three = `{"A", "B", "C"}`
+	two       = `{"A", "B"}`
+	three     = `{"A", "B", "C"}`
+	allShapes = `{"ptr", "str", "map"}`
 )
 
 var (
@@ -475,16 +476,14 @@ func main() {
 		ModelJobs: func(env *fw.Env) []fw.TLCJob {
 			if env.Tier == "thorough" {
 				return []fw.TLCJob{
-					mcJob("mc:1x3:all-fix-subsets", two, 3, `{"X"}`, everySubset),
-					mcJob("mc:2x3", two, 3, `{"X", "Y"}`, asIsAndRepaired),
-					mcJob("mc:3nodes:1x3", three, 3, `{"X"}`, asIsAndRepaired),
-					mcJob("mc:1x4", two, 4, `{"X"}`, asIsAndRepaired),
+					mcJob("mc:1x3:all-fix-subsets", two, 3, `{"X"}`, allShapes, everySubset),
+					mcJob("mc:2x3", two, 3, `{"X", "Y"}`, allShapes, asIsAndRepaired),
+					mcJob("mc:3nodes:1x3", three, 3, `{"X"}`, allShapes, asIsAndRepaired),
+					mcJob("mc:1x4", two, 4, `{"X"}`, allShapes, asIsAndRepaired),
 				}
 			}
-			return []fw.TLCJob{
-				mcJob("mc:1x3", two, 3, `{"X"}`, asIsAndRepaired),
-				mcJob("mc:2x2", two, 2, `{"X", "Y"}`, asIsAndRepaired),
-			}
+			// quick: the map shape takes the same branch of the model as the string shape
+			return []fw.TLCJob{mcJob("mc:1x3", two, 3, `{"X"}`, `{"ptr", "str"}`, asIsAndRepaired)}
 		},
 		// Histories are generated from the as-is model: event enabledness does not depend on the
 		// store, and the as-is state graph distinguishes more states (deviation flags), so its
@@ -507,15 +506,9 @@ func main() {
 		MaxBehSrc: func(env *fw.Env, src string) int {
 			// counts are per generation job AFTER expansion to the three wirings
 			if env.Tier == "thorough" {
-				if src == "gen:dev" {
-					return 450
-				}
-				return 360
+				return 600
 			}
-			if src == "gen:dev" {
-				return 45
-			}
-			return 36
+			return 60
 		},
 		Expand: func(env *fw.Env, src string, raw json.RawMessage) []json.RawMessage {
 			var steps []step
